@@ -313,9 +313,9 @@ DESC6 = {
  'C18_A': ('mem/queue.rs is_empty + mem/queues.rs ack_position', 'is_empty tests the payload bytes; ack_position always re-creates', 'a queue holding only empty payloads, a GC triggered by another queue, restart'),
  'C18_B': ('multi_record_log.rs delete_queue reclaim_unused_files', 'delete_queue unlinks unused files without the position pass', 'an empty queue whose records sit only in files pinned by the deleted queue'),
  'C18_C': ('recordlog/reader.rs go_next', 'a First/Full frame is honoured only when no entry is open', 'a torn multi-frame entry of another queue at the tail, recovery, append, restart'),
- 'C12_A': ('?', '?', '?'),
- 'C12_B': ('?', '?', '?'),
- 'C12_C': ('?', '?', '?'),
+ 'C12_A': ('recordlog/reader.rs go_next has_pending_record', 'a Last frame is accepted when within_record OR the buffer is non-empty (the buffer is not cleared by a corruption)', 'a batch of >= 3 blocks, damage in a Middle block, item boundaries on frame boundaries'),
+ 'C12_B': ('record.rs MultiRecord::new', 'validation keeps the well-formed items before the first malformed one', 'a CRC-valid but malformed batch (stale frames glued after damage + crash)'),
+ 'C12_C': ('multi_record_log.rs append_records wal_chunks', 'a batch is written as one WAL entry per MiB', 'a batch larger than 1 MiB and a crash losing its last entries'),
 }
 
 
